@@ -2,17 +2,19 @@
 # usage: tools_seed_run.sh [seed-dir ...]
 # Applies each seeded change to a scratch copy of /repo (never to /repo itself), runs the property's quick check on
 # that copy, and removes the copy.  Evidence and replays of these runs go to a scratch directory.
-# SEED_PROPS="C01 C05" overrides the property list; SEED_JOBS=n runs n seeds at a time (default 3).
+# SEED_PROPS="C01 C05" overrides the property list; SEED_JOBS=n runs n seeds at a time (default 1: the solver timeouts are wall-clock, an overloaded machine turns proofs into timeouts).
 cd /verif
 export GOFLAGS=-mod=mod GOPROXY=off GOSUMDB=off GOTOOLCHAIN=local
 [ $# -eq 0 ] && set -- seeded/C*
 out=$(mktemp -d /tmp/govc-seed-out-XXXXXX)
+base=$(mktemp -d /tmp/govc-seed-base-XXXXXX)   # one snapshot of /repo for the whole run
+rsync -a --exclude .git /repo/ $base/
 one() {
   d=${1%/}
   prop=$(python3 -c "import json;print(json.load(open('$d/meta.json'))['property'])")
   props=${SEED_PROPS:-$prop}
   scratch=$(mktemp -d /tmp/govc-seed-repo-XXXXXX)
-  rsync -a --exclude .git /repo/ $scratch/
+  rsync -a $base/ $scratch/
   if ! git -C $scratch apply --exclude="MUTANTS/*" /verif/$d/patch.diff 2>/dev/null; then echo "$d: patch does not apply"; rm -rf $scratch; return; fi
   for p in $props; do
     o=$out/$(basename $d)-$p; mkdir -p $o
@@ -22,7 +24,7 @@ one() {
   done
   rm -rf $scratch
 }
-jobs=${SEED_JOBS:-3}
+jobs=${SEED_JOBS:-1}
 n=0
 for d in "$@"; do
   one "$d" &
@@ -30,4 +32,4 @@ for d in "$@"; do
   if [ $((n % jobs)) -eq 0 ]; then wait; fi
 done
 wait
-rm -rf $out
+rm -rf $out $base
